@@ -10,8 +10,10 @@ P = "Claripy.Props.C25."
 L = "Claripy.VSA."
 THEOREMS = [P + n for n in ("C25_preimage_add", "C25_pair_exact", "C25_lone_bound_not_a_preimage", "C25_extract_uge", "C25_extract_ne",
                             "C25_extract_eq_not_pre", "C25_extract_ule_not_pre", "C25_shl_uge", "C25_shl_ule_not_pre", "C25_combine_bounds")] + \
-           [L + n for n in ("Win_preimage_add", "Win_rot", "cd_rot", "add_ule_pair", "add_uge_pair", "balAddPair_exact")]
-TESTS = [P + "test_pair_example"]
+           [L + n for n in ("Win_preimage_add", "Win_rot", "cd_rot", "add_ule_pair", "add_uge_pair", "balAddPair_exact")] + \
+           [P + n for n in ("C25_align_sound", "C25_step_holds", "C25_add_rot", "C25_sub_rot", "C25_balance_holds", "C25_balance_rot",
+                            "C25_handle_sound", "C25_balancer_sound", "C25_replacement_interval", "C25_mixed_path_cuts_off_model")]
+TESTS = [P + "test_pair_example", P + "test_covered_example"]
 
 
 def pair_correspondence(ctx):
